@@ -34,6 +34,7 @@ def run(ctx):
     ctx.assumptions += ["N: canonicity, completeness and soundness proper (C12.1 are necessary conditions only)"]
     c12_1(ctx)
     c12_1_verdict(ctx)
+    c12_proofgen(ctx)
     c12_2(ctx)
     c12_3(ctx)
     c12_4(ctx)
@@ -407,3 +408,46 @@ def c12_1_verdict(ctx):
                "generate_proof_impl reports inclusion only through complete 32-byte equality of the stored leaf with the item "
                "(Empty=>false, Leaf, pair of leaves, else recurse on get_bit(item, depth) with depth+1)",
                found=(bad[:3] or sorted(need - classes)) or None, where=b.fn.sp)
+
+
+def c12_proofgen(ctx):
+    """(a) from_proof is deserialize_proof_impl and nothing else: the verifier refuses a proof only where the parser does
+    (completeness: no honest proof is cut off by a size/shape pre-filter -- the largest honest proof has 256 levels with a
+    33-byte sibling on each).  (b) the generator's padding of a collapsed double-leaf follows the reader's audit bit by bit:
+    at each depth compare bit `depth` of both leaves -- different: MIDDLE TERMINAL left TERMINAL right; both 1: MIDDLE EMPTY <deeper>;
+    both 0: MIDDLE <deeper> EMPTY -- recursing with depth+1 on the same two leaves."""
+    R = "C12.1"
+    b = U.body(ctx, R, MT + "MerkleSet::from_proof")
+    if b:
+        rows = set()
+        for ev, ex in P.enumerate_paths(b):
+            cs = frozenset((str(apnf.N(t)).split(",")[0], str(l)) for t, l in P.conds(ev))
+            rows.add((ex[0], P.ret_class(ev) if ex[0] == "return" else "", cs))
+        d = "('MerkleSet::deserialize_proof_impl'"
+        exp = {("return", "Ok", frozenset({(d, "('try', True)")})), ("return", "Err", frozenset({(d, "('try', False)")}))}
+        ctx.ob(R, "from_proof:only-the-parser-rejects", rows == exp,
+               "from_proof = deserialize_proof_impl(proof)? with no other rejection", found=sorted(map(str, rows ^ exp))[:3] or None, where=b.fn.sp)
+    R = "C12.2"
+    b = U.body(ctx, R, MT + "pad_middles_for_proof_gen")
+    if b:
+        rows = set()
+        for ev, ex in P.enumerate_paths(b):
+            if ex[0] != "return":
+                rows.add(("exit", ex[0]))
+                continue
+            cs = frozenset((str(apnf.N(t)), l[1]) for t, l in P.conds(ev))
+            seq = tuple((U.flat(e[2]).split("::")[-1],) + tuple(str(apnf.N(a)) for a in e[3][1:]) for e in P.calls(ev)
+                        if U.flat(e[2]).split("::")[-1] in ("push", "extend_from_slice", "pad_middles_for_proof_gen", "extend"))
+            rows.add((cs, seq))
+        ne = "('Ne', ('get_bit', 'left', 'depth'), ('get_bit', 'right', 'depth'))"
+        lb = "('get_bit', 'left', 'depth')"
+        rec = ("pad_middles_for_proof_gen", "left", "right", "('.0', ('AddWithOverflow', 'depth', 1))")
+        exp = {
+            (frozenset({(ne, True)}), (("push", "2"), ("push", "1"), ("extend_from_slice", "('as &[u8]', 'left')"), ("push", "1"),
+                                       ("extend_from_slice", "('as &[u8]', 'right')"))),
+            (frozenset({(ne, False), (lb, True)}), (("push", "2"), ("push", "0"), rec)),
+            (frozenset({(ne, False), (lb, False)}), (("push", "2"), rec, ("push", "0"))),
+        }
+        ctx.ob(R, "pad-middles:bit-by-bit", rows == exp,
+               "pad_middles_for_proof_gen emits one MIDDLE per shared bit with EMPTY on the side the leaves are not on, and the two terminals "
+               "at the first differing bit", found=sorted(map(str, rows ^ exp))[:2] or None, where=b.fn.sp)
